@@ -210,7 +210,12 @@ fn oracle(c: &mut Ctx, sc: &StepCtx, op: &Op, before: &Document, after: &Documen
             c.count_n("pruned_objects", want.len() as u64);
         }
         Op::Renum(start) => {
-            if after.objects.len() != before.objects.len() { fail(c, sc, "frame:renumber", "object count changed", before); }
+            if after.objects.len() != before.objects.len() {
+                let pages: Vec<ObjectId> = before.page_iter().collect();
+                let distinct: BTreeSet<ObjectId> = pages.iter().cloned().collect();
+                if distinct.len() != pages.len() { c.count("renumber_duplicate_page"); fail(c, sc, "frame:renumber:duplicate-page", "renumbering lost an object (a page is enumerated twice)", before); }
+                else { fail(c, sc, "frame:renumber", "object count changed", before); }
+            }
             let n = after.objects.len() as u32;
             if n > 0 && after.max_id != start + n - 1 { fail(c, sc, "inv:renumber-max_id", "max_id is not the last number", before); }
         }
@@ -298,7 +303,12 @@ fn gen_op(r: &mut Rng, doc: &Document, safe_only: bool) -> Option<Op> {
         3 => {
             // replace an existing object, or fill a free number below max_id
             if !ids.is_empty() && r.chance(3, 4) { Op::Set(*r.pick(&ids), gen_obj(r, 0, &rp)) }
-            else if doc.max_id >= 1 { Op::Set((1 + r.below(doc.max_id as u64) as u32, 0), gen_obj(r, 0, &rp)) } else { return None }
+            else if doc.max_id >= 1 {
+                // a free NUMBER (two live objects never share a number with different generations)
+                let n = 1 + r.below(doc.max_id as u64) as u32;
+                if ids.iter().any(|k| k.0 == n && k.1 != 0) { return None; }
+                Op::Set((n, 0), gen_obj(r, 0, &rp))
+            } else { return None }
         }
         4 | 5 => {
             if ids.is_empty() { return None; }
@@ -398,6 +408,19 @@ fn witnesses(c: &mut Ctx) {
                     &format!("delete_object((5,0)): left in trailer /Info: {}, in stream dictionary: {}, second array occurrence: {}, plain dictionary entry removed: {}", in_trailer, in_stream, in_array, dict_clean));
             }
             Err((s, m)) => c.oracle_fail(&format!("panic@{}", s), &m, json!({"witness": "F-C11-a"})),
+        }
+    }
+    // F-C11-d: a page listed twice in the page tree: renumber_objects loses an object
+    if let Some(_r) = c.case("witness_renumber_duplicate_page", 0) {
+        let mut d = c10::witness_doc_1to5();
+        if let Some(Object::Dictionary(p)) = d.objects.get_mut(&(3, 0)) {
+            p.set("Kids", Object::Array(vec![Object::Reference((2, 0)), Object::Reference((4, 0)), Object::Reference((2, 0))]));
+        }
+        let before = d.clone();
+        if let Ok(x) = guard(|| { let mut x = before.clone(); x.renumber_objects(); x }) {
+            c.corr(format!("step renum 1 {}", show_doc(&before)), format!("ok unit | {}", show_doc(&x)));
+            c.witness("F-C11-d", x.objects.len() == 4 && before.objects.len() == 5,
+                &format!("Kids [2 0 R, 4 0 R, 2 0 R]: renumber_objects() leaves {} of {} objects", x.objects.len(), before.objects.len()));
         }
     }
     // F-C11-b: set_object above max_id, then add_object overwrites it
